@@ -688,22 +688,29 @@ Section Reals.
   Lemma fleb_R x y : fleb Op x y = true -> x <= y.
   Proof. cbn [fleb R_ops]. apply Rleb_true. Qed.
 
-  Theorem C11_checkb_sound n A X tol_s tol_c bound :
-    C11_checkb Op n A X tol_s tol_c bound = true ->
+  Theorem C11_checkb_sound n A X V tol_s tol_c bound :
+    C11_checkb Op n A X V tol_s tol_c bound = true ->
     (forall i j, (i < n)%nat -> (j < n)%nat -> Rabs (X i j - X j i) <= tol_s)
     /\ (forall i, (i < n)%nat -> 0 < X i i)
     /\ (forall i j, (i < n)%nat -> (j < n)%nat -> Rabs (X i j) <= bound)
-    /\ (forall i j, (i < n)%nat -> (j < n)%nat -> Rabs (mmul Op n X A i j - mmul Op n A X i j) <= tol_c).
+    /\ (forall i j, (i < n)%nat -> (j < n)%nat -> Rabs (mmul Op n X A i j - mmul Op n A X i j) <= tol_c)
+    /\ (forall k, (k < n)%nat -> 0 < qform Op n X (mcol V k) <= bound * dot Op n (mcol V k) (mcol V k)).
   Proof.
     unfold C11_checkb. intros H. repeat (apply andb_true_iff in H as [H ?]).
-    apply fleb_R in H0, H1, H3. repeat split.
-    - intros i j Hi Hj. eapply Rle_trans; [|exact H3].
+    apply fleb_R in H1, H2, H4. repeat split.
+    - intros i j Hi Hj. eapply Rle_trans; [|exact H4].
       apply (maxabs_ge rnd n (msub Op X (mtrans X)) i j Hi Hj).
-    - intros i Hi. unfold diag_pos in H2. rewrite forall_lt_true in H2. specialize (H2 i Hi).
-      cbn [fltb f0 R_ops] in H2. apply Rltb_true in H2. exact H2.
-    - intros i j Hi Hj. eapply Rle_trans; [|exact H1]. apply (maxabs_ge rnd n X i j Hi Hj).
-    - intros i j Hi Hj. eapply Rle_trans; [|exact H0].
+    - intros i Hi. unfold diag_pos in H3. rewrite forall_lt_true in H3. specialize (H3 i Hi).
+      cbn [fltb f0 R_ops] in H3. apply Rltb_true in H3. exact H3.
+    - intros i j Hi Hj. eapply Rle_trans; [|exact H2]. apply (maxabs_ge rnd n X i j Hi Hj).
+    - intros i j Hi Hj. eapply Rle_trans; [|exact H1].
       apply (maxabs_ge rnd n (msub Op (mmul Op n X A) (mmul Op n A X)) i j Hi Hj).
+    - unfold rayleigh_ok in H0. rewrite forall_lt_true in H0. specialize (H0 k H5).
+      apply andb_true_iff in H0 as [Ha _]. cbn [fltb f0 R_ops] in Ha. apply Rltb_true in Ha.
+      rewrite (vmemo_eq Op n (mcol V k)) in Ha. exact Ha.
+    - unfold rayleigh_ok in H0. rewrite forall_lt_true in H0. specialize (H0 k H5).
+      apply andb_true_iff in H0 as [_ Hb]. apply fleb_R in Hb. cbn [fmul R_ops] in Hb.
+      rewrite (vmemo_eq Op n (mcol V k)) in Hb. exact Hb.
   Qed.
 
   Theorem C10_checkb_sound n p q A eps X tol tol_s :
